@@ -27,7 +27,7 @@ PRIMES = [2, 3, 5, 7, 11, 13, 17, 19, 23, 29, 31, 37, 41, 43, 47, 53, 59, 61, 67
           197, 199, 211, 223, 227, 229, 233, 239, 241, 251, 257, 263, 269, 271, 277, 281]
 XS = [F(0), F(1), F(-1), F(1, 2), F(-3, 2), F(7, 5)]
 ALPHA = [F(0), F(1), F(-1), F(2), F(1, 2)]
-SCHEMES = ["none", "horner", "estrin", "balanced", "canonical"]
+SCHEMES = ["none", "horner", "estrin", "balanced", "canonical", "custom:zero", "custom:third", "custom:kminus1", "custom:direct-below-5"]
 
 
 def generic_coeffs(n, salt=0):
@@ -83,6 +83,12 @@ def _schemes(fa, which):
         "estrin": m.estrin_dac_scheme,
         "balanced": m.balanced_dac_scheme,
         "canonical": m.canonical_scheme,
+        # user-supplied schemes ("scheme is an int-to-int function"): any value in 0..k is a valid split point, 0 means
+        # "evaluate this block directly"
+        "custom:zero": lambda k, N: 0,
+        "custom:third": lambda k, N: k // 3,
+        "custom:kminus1": lambda k, N: k - 1,
+        "custom:direct-below-5": lambda k, N: 0 if k <= 4 else k // 2,
     }
 
 
